@@ -9,6 +9,7 @@ import DswModel.Py.Wire
 import DswModel.Gen.Operation
 import DswModel.Gen.Graphized
 import DswModel.Gen.Spiderweb
+import DswModel.Gen.Biofilter
 /-!
 Line-protocol driver: one operation per input line, one canonical result line per operation.
 Imports only `DswModel.Model.*` (core Lean), so it links as a native executable; the definitions
@@ -28,7 +29,8 @@ def stepGen (name : String) (args : List String) : String :=
   | some vs =>
     match (Dsw.Gen.dispatch_operation genFuel name vs).orElse
         (fun _ => (Dsw.Gen.dispatch_spiderweb genFuel name vs).orElse
-          (fun _ => Dsw.Gen.dispatch_graphized genFuel name vs)) with
+          (fun _ => (Dsw.Gen.dispatch_graphized genFuel name vs).orElse
+            (fun _ => Dsw.Gen.dispatch_biofilter genFuel name vs))) with
     | none => "bad-op"
     | some (.ok v) => "ok " ++ Dsw.Py.showPV v
     | some (.error e) => "err " ++ (match e with
@@ -129,8 +131,9 @@ def parseCfg (k run motifs gc : String) : FilterCfg :=
     motifs := if motifs = "-" then none
               else some ((motifs.splitOn ",").map fun m => charsOf m)
     gc := if gc = "-" then none else
-      match (gc.splitOn ",").map parseIntD with
-      | [l, u, a] => some ⟨l, u, a⟩
+      -- the two bounds as the exact fractions of the doubles the real filter is given: `ln/ld,hn/hd`
+      match (gc.splitOn ",").map fun t => (t.splitOn "/").map parseIntD with
+      | [[ln, ld], [hn, hd]] => floatGcRule ⟨ln, ld.toNat⟩ ⟨hn, hd.toNat⟩ (parseNatD k)
       | _ => none }
 
 def parseRat (s : String) : Rat :=
@@ -145,6 +148,21 @@ def showScaled (x : Rat) : String := toString ((x * (10 ^ 18 : Nat)).floor)
 def step (line : String) : String :=
   match line.trimAscii.toString.splitOn " " with
   | "gen" :: name :: args => stepGen name args
+  | ["fop", op, a, b] =>
+    -- a float primitive of the Python fragment on two wire values (validates `Model/Float.lean` against CPython)
+    (match Dsw.Py.parsePV a, Dsw.Py.parsePV b with
+     | some x, some y =>
+       let r : Option Dsw.Py.RV := match op with
+         | "mul" => some (Dsw.Py.pyMul x y) | "sub" => some (Dsw.Py.pySub x y) | "add" => some (Dsw.Py.pyAdd x y)
+         | "lt" => some ((Dsw.Py.pyLt x y).map Dsw.Py.PV.bool) | "le" => some ((Dsw.Py.pyLe x y).map Dsw.Py.PV.bool)
+         | "eq" => some ((Dsw.Py.pyEq x y).map Dsw.Py.PV.bool)
+         | "int" => some (Dsw.Py.pyInt x)
+         | _ => none
+       match r with
+       | some (.ok v) => "ok " ++ Dsw.Py.showPV v
+       | some (.error e) => "err " ++ errName e
+       | none => "bad-op"
+     | _, _ => "bad-arg")
   | ["add", s, b] => showDigits (calculusAddition (digitsOf s) (parseNatD b))
   | ["sub", s, b] => showDigits (calculusSubtraction (digitsOf s) (parseNatD b))
   | ["mul", s, b] => showDigits (calculusMultiplication (digitsOf s) (parseNatD b))
